@@ -12,6 +12,9 @@
 //               back projection of a window == back projection of the data zeroed outside the window
 //   accumulate: start_accumulating_in_new_target(); back_project(y1); back_project(y2); get_output == A^T y1 + A^T y2
 //   raytracing: ForwardProjectorByBinUsingRayTracing == forward projector using the ray tracing matrix with identical settings
+//   re-use    : histories of set_up calls on ONE pair object / ONE on-the-fly projector (same projection data + other image geometry, same image
+//               + other projection data, both orders and back again, same arguments twice): after every set_up all unit projections equal
+//               those of new objects set up once with the current arguments, and adjoint / linear / accumulate / raytracing hold again
 #include "vmc.h"
 #include "stir_small.h"
 #include "ref_geom34.h"
@@ -987,12 +990,18 @@ int main(int argc, char** argv)
   vmc::Ctx ctx(argc, argv, "C04");
   small::quiet();
   ctx.rule = "per (scanner, sampling, image grid, pair configuration): ALL unit images forward projected and ALL unit data back projected (adjointness decided on the full basis), superposition family, every "
-             "(subset_num, num_subsets), every related-viewgram group x sub-ranges, accumulation, on-the-fly ray tracing projector vs matrix projector; non-trivial = configuration with non-zero matrix elements";
+             "(subset_num, num_subsets), every related-viewgram group x sub-ranges, accumulation, on-the-fly ray tracing projector vs matrix projector; non-trivial = configuration with non-zero matrix elements; "
+             "re-used objects: per (base geometry, pair configuration) every history S0>v>S0 (thorough also v>S0>v and a>b>a, b>a>b for all pairs of variants) of set_up calls on one pair object and one on-the-fly "
+             "projector, v in {planes+2, z origin+1, z voxel size, x/y size+2, x/y voxel size | fewer segments, other span, half the views, 2 tangential positions less}, equal arguments being the same objects; after "
+             "every set_up ALL unit images / unit data are projected again and compared with new objects set up once (each (history, step, unit vector) with a non-zero result counts as distinct non-trivial)";
   ctx.assume("adjointness: |(A e_j)_b - (A^T f_b)_j| <= 10 eps_float * sum_j |(A^T f_b)_j|; linearity / additivity: <= 100-200 eps_float * sum |terms| against the columns/rows obtained from the unit projections (reference sums in double)");
   ctx.assume("a subset (subset_num, num_subsets) is read as the projectors implement it: the related view-segment groups of the basic view-segments with view = subset_num mod num_subsets; the check requires these groups to "
              "partition the data and every other bin to be untouched (zero=false) or zero (zero=true, num_subsets>1); partitions that are not closed under the view symmetries are counted");
   ctx.assume("on-the-fly ray tracing projector vs matrix projector: one ray per bin, same FOV shape, z spacing = ring spacing/2 (assert-only precondition of the Siddon code); bins on rounding ties of the ray end points excluded by "
              "the C03 screen; tolerance 100*delta*row maximum");
+  ctx.assume("re-used objects: after set_up(P, I) a projector is the projector of (P, I) whatever it was set up with and used for before: its unit projections must equal those of a new object set up once with (P, I) within "
+             "100 eps_float * largest matrix element (both are the same deterministic computation; a stale member is O(1) wrong); the on-the-fly projector is only shown image grids with z spacing = ring spacing/2 that a new "
+             "on-the-fly projector accepts, and is compared with the matrix only for grids without rings on plane boundaries (as for new objects); histories containing arguments that new objects reject are counted and skipped");
   const bool th = ctx.thorough();
   if (ctx.replaying())
     {
